@@ -753,7 +753,8 @@ fn expand_home(tokens: &mut types::Tokens) {
         let re = Regex::new(ptn).expect("invalid re ptn");
         let home = tools::get_user_home();
         let ss = s.clone();
-        let to = format!("{}$tail", home);
+        // `$` in the home directory must not be read as a capture reference
+        let to = format!("{}$tail", home.replace("$", "$$"));
         let result = re.replace_all(ss.as_str(), to.as_str());
         s = result.to_string();
 
